@@ -216,6 +216,18 @@ def jobs(prop, tier):
         for l in ((2, 3) if T else (2,)):
             J.append(Job('C14', 'chunk%d' % l, 'C14_enhanced.cpp', defs={'H_CHUNK': None, 'L': l}, unwind=2 * l + 2, unwindset={'cstrlen': 34, 'put_field': 34, 'vs_copy': 34, 'basic_ostringstreamIcSt11char_traitsIcESaIcEE3strEv': 34}, shape='R', timeout=3000 if T else 280,
                          bounds='every stream of %d arbitrary bytes, every split position, every initial arbitration state' % l, **DEV))
+    if prop == 'C17':
+        MSG = dict(link=['lib/ebus/data.cpp', 'lib/ebus/datatype.cpp', 'lib/ebus/symbol.cpp', 'lib/ebus/result.cpp', 'lib/ebus/filereader.cpp', 'lib/ebus/contrib/contrib.cpp', 'lib/ebus/contrib/tem.cpp'],
+                   models=['string', 'libc', 'sstream', 'posix', 'containers', 'libm'], skip_ctors=['message', 'data.cpp', 'datatype', 'contrib', 'tem', 'filereader'],
+                   rtti=True, noop_containing=['_ZNSt8_Rb_tree+8_M_eraseEPSt13_Rb_tree_node'], solver=PORTFOLIO, timeout=1500 if T else 280)
+        J.append(Job('C17', 'order', 'C17_poll.cpp', defs={'H_ORDER': None}, unwind=6, shape='K', bounds='three messages with arbitrary 32-bit virtual time, priority 0..255 and 63-bit last poll time', **MSG))
+        J.append(Job('C17', 'setprio', 'C17_poll.cpp', defs={'H_SETPRIO': None}, unwind=6, shape='S', bounds='one setPollPriority(0..11) on a message with any priority 0..9, virtual time within the window, any passive/scan/condition flags', **MSG))
+        for m in (1, 2, 3) + ((4,) if T else ()):
+            J.append(Job('C17', 'next%d' % m, 'C17_poll.cpp', defs={'H_NEXT': None, 'M': m}, unwind=m + 4, shape='S',
+                         bounds='one getNextPoll from every heap-ordered queue of %d message(s), priorities 1..9, virtual times from 30 behind to one period ahead of the last polled one, any last poll times, any clock step' % m, **MSG))
+        for m in (0,) + ((1, 2) if T else ()):   # one and two queued messages: no verdict within the quick cap (heap sift over symbolic pointers)
+            J.append(Job('C17', 'add%d' % m, 'C17_poll.cpp', defs={'H_ADD': None, 'M': m}, unwind=m + 5, shape='S',
+                         bounds='one addPollMessage(front or back) of a new message to every heap-ordered queue of %d message(s)' % m, **MSG))
     if prop == 'C16':
         pairs = [(1, 1), (1, 3), (2, 2), (2, 3), (2, 5), (1, 4), (3, 3)] if not T else [(a, b) for a in (1, 2, 3) for b in range(1, 8) if b >= a]
         for (la, lb) in pairs:
@@ -293,6 +305,12 @@ META = {
    level_note='Covers only the listed kernels. NOT covered (beyond this encoding, see DESIGN section 8): the protocol handler state machine on arbitrary bus traffic, client command lines and HTTP requests through MainLoop, CSV/definition loaders, leak freedom of request objects. Those interfaces are fuzzing territory; no claim is made for them.',
    outside_claim='DirectProtocolHandler on arbitrary traffic, MainLoop command interpreter, CSV loaders, request-object lifetime, FileTransport',
    assumptions=COMMON_ASSUME,
+ ),
+ 'C17': dict(
+   level_text='Bounded model checking of the real poll scheduling code as inductive steps (Message::isLessPollWeight, Message::setPollPriority, MessageMap::getNextPoll, MessageMap::addPollMessage with the real std::priority_queue header code and the file-static virtual clock): the comparator is the documented strict weak order for all field values; from EVERY heap-ordered queue of up to 3 messages with priorities 1..9 one getNextPoll selects a message that is due first, advances its virtual time by exactly its priority, sets the virtual clock to the maximum, leaves the others untouched and the queue a duplicate-free heap, keeps the scheduling window invariant (no message more than one period ahead) and strictly decreases the waiting rank of every other message (so every message is selected again within a bounded number of selections, and since each selection costs exactly p ticks of virtual time the long-run frequency is proportional to 1/p); setPollPriority never places a message before clock+priority (no overtaking) and keeps the window invariant; adding a new message keeps the queue a duplicate-free heap.',
+   level_note='Message and MessageMap objects are constructed partially (poll fields, poll queue, mutex); the rest of these classes (string maps) is not needed by the poll code. Induction gap stated openly: the step assumes a heap-ordered queue; MessagePriorityQueue::push/remove erase an ALREADY QUEUED message from the middle of the vector without re-heapifying, which can leave a non-heap (observation OBS-C17-erase-breaks-heap); re-adding a queued message and removal are therefore outside the claim. Unsigned wrap of the virtual clock after 2^32 ticks is assumed away (window bound). BusHandler trigger of polling is outside.',
+   outside_claim='re-adding an already queued message / removal (erase from the middle of the heap), queues of more than 3 (thorough: 4) messages, 2^32 wrap of the virtual clock, message reload, BusHandler poll trigger',
+   assumptions=COMMON_ASSUME + ['queue vector is heap-ordered before the step (std::priority_queue representation invariant)', 'virtual times within [clock-30, clock+priority]'],
  ),
  'C13': dict(
    level_text='Bounded model checking of the real field lookup used when a condition is resolved (DataFieldSet::hasField / SingleDataField::hasField): for every assignment of numeric/string kinds to up to 3 named fields and every query (unnamed or named, numeric or string) the answer is true iff a field of that name and kind exists.',
